@@ -76,6 +76,9 @@ var c08Signature = []byte("NTLMSSP\x00")
 type c08 struct {
 	*Ctx
 	w *prove.World
+	// loopGuards: the error-exit tests of the counted table loops of the builder
+	// being analysed (for _, f := range fields { if len(f) > 0xFFFF { return … } })
+	loopGuards []codec.LoopGuard
 }
 
 func (c *c08) fname(fn *ssa.Function) string { return c.P.FuncName(fn) }
@@ -335,6 +338,7 @@ func (c *c08) builder1(spec c08Msg, sig *ssa.Global, fn *ssa.Function, name stri
 	z := codec.NewSym()
 	fi := c.w.Info(fn)
 	z.LoadRep = fi.LoadRep
+	c.loopGuards = st.LoopGuards()
 	placed, total, why := c.place(z, pieces)
 	if why != "" {
 		pos := c.pos(fn.Pos())
@@ -791,9 +795,10 @@ func (c *c08) narrowing(name, desc string, fn *ssa.Function, z *codec.Sym, piece
 			at, src, f2 = f2.Call, arg, pf
 		}
 		ctx := c.w.Info(at.Parent()).CtxBefore(at)
+		c.guardFacts(z, ctx, at)
 		sf := ctx.Lin(src)
 		proved := ctx.Prove(lin.LE(sf, lin.KB(max))) && ctx.Prove(lin.GE0(sf))
-		if !proved && fr != nil {
+		if !proved {
 			// The converted value lives in an inlined helper and/or in one iteration
 			// of an unrolled loop, where E1 (which sees the helper alone, and the
 			// loop body once for all iterations) knows nothing about it. Prove the
@@ -808,6 +813,7 @@ func (c *c08) narrowing(name, desc string, fn *ssa.Function, z *codec.Sym, piece
 				}
 			}
 			ctx2 := c.w.Info(topAt.Parent()).CtxBefore(topAt)
+			c.guardFacts(z, ctx2, topAt)
 			if tf, ok := c08IterForm(z, ctx2, conv.X, fr, topAt); ok {
 				if ctx2.Prove(lin.LE(tf, lin.KB(max))) && ctx2.Prove(lin.GE0(tf)) {
 					proved = true
@@ -824,6 +830,54 @@ func (c *c08) narrowing(name, desc string, fn *ssa.Function, z *codec.Sym, piece
 		}
 	}
 	c.R.OK("R2.desc-narrow", construct, c.pos(fn.Pos()), "uint16(len) and uint32(offset) proved in range by E1")
+}
+
+// guardFacts adds to ctx what the guards of the counted table loops that have
+// run to their end before `at` established: in every iteration the test had
+// the outcome that stays in the loop, so the relation holds for the table
+// element (or other per-iteration quantity) of each iteration.
+func (c *c08) guardFacts(z *codec.Sym, ctx *prove.Ctx, at ssa.Instruction) {
+	for _, g := range c.loopGuards {
+		if g.Cond.Parent() != at.Parent() || !g.Exit.Dominates(at.Block()) {
+			continue
+		}
+		for _, fr := range g.Frames {
+			x, ok1 := c08IterForm(z, ctx, g.Cond.X, fr, at)
+			y, ok2 := c08IterForm(z, ctx, g.Cond.Y, fr, at)
+			if !ok1 || !ok2 {
+				continue
+			}
+			op := g.Cond.Op
+			if !g.Stay {
+				switch op {
+				case token.LSS:
+					op = token.GEQ
+				case token.LEQ:
+					op = token.GTR
+				case token.GTR:
+					op = token.LEQ
+				case token.GEQ:
+					op = token.LSS
+				case token.EQL:
+					op = token.NEQ
+				case token.NEQ:
+					op = token.EQL
+				}
+			}
+			switch op {
+			case token.LSS:
+				ctx.AddFact(lin.LT(x, y))
+			case token.LEQ:
+				ctx.AddFact(lin.LE(x, y))
+			case token.GTR:
+				ctx.AddFact(lin.GT(x, y))
+			case token.GEQ:
+				ctx.AddFact(lin.GE(x, y))
+			case token.EQL:
+				ctx.AddFact(lin.EQ(x, y)...)
+			}
+		}
+	}
 }
 
 // c08IterForm: the value of src in iteration activation fr as an E1 form at
@@ -900,7 +954,37 @@ func c08HasNarrowing(v ssa.Value, fr *codec.Frame, d int) bool {
 			return c08HasNarrowing(x.X, fr, d+1) || c08HasNarrowing(x.Y, fr, d+1)
 		}
 		return false
-	case *ssa.Phi, *ssa.Parameter:
+	case *ssa.Call:
+		// a running-offset helper evaluated symbolically (codec/cells.go): its body
+		// must not narrow either
+		if _, isB := x.Common().Value.(*ssa.Builtin); isB {
+			return false
+		}
+		var f *ssa.Function
+		if mc, ok := x.Common().Value.(*ssa.MakeClosure); ok {
+			f, _ = mc.Fn.(*ssa.Function)
+		} else {
+			f = x.Common().StaticCallee()
+		}
+		if f == nil || f.Blocks == nil {
+			return false
+		}
+		for _, b := range f.Blocks {
+			for _, in := range b.Instrs {
+				if cv, ok := in.(*ssa.Convert); ok {
+					sb, ok1 := cv.X.Type().Underlying().(*types.Basic)
+					db, ok2 := cv.Type().Underlying().(*types.Basic)
+					if !ok1 || !ok2 || sb.Info()&types.IsInteger == 0 || db.Info()&types.IsInteger == 0 {
+						continue
+					}
+					if c08Bits(db) < c08Bits(sb) || (sb.Info()&types.IsUnsigned == 0) != (db.Info()&types.IsUnsigned == 0) && c08Bits(db) <= c08Bits(sb) {
+						return true
+					}
+				}
+			}
+		}
+		return false
+	case *ssa.Phi, *ssa.Parameter, *ssa.UnOp, *ssa.Field, *ssa.Index:
 		if e, ef := codec.Resolve(v, fr); e != v {
 			return c08HasNarrowing(e, ef, d+1)
 		}
